@@ -577,8 +577,6 @@ impl OcflStore for S3OcflStore {
             version_str, inventory.id
         );
 
-        let uploaded = self.upload_all_files_with_rollback(&version_dst_path, version_path)?;
-
         // The root inventory and its sidecar are replaced, and on an upgrade the object version
         // declaration is too. What is replaced is kept so that it can be put back if installing
         // the new version fails part way through.
@@ -604,6 +602,8 @@ impl OcflStore for S3OcflStore {
             .spec_version()
             .filter(|_| upgrade)
             .map(|version| join(object_root, version.object_namaste().filename));
+
+        let uploaded = self.upload_all_files_with_rollback(&version_dst_path, version_path)?;
 
         let install = || -> Result<()> {
             self.install_inventory_in_root_with_rollback(
